@@ -122,13 +122,33 @@ def rule_R4b(ctx, rep, config="c-lib"):
         pa = resolve_addr(f, i.ops[0])
         return pa.root == ("g", CUR) and not pa.steps
 
+    # two loads of the cursor without a store to it in between denote the same position: the later one is an alias of the earlier
+    # (a peek `*curr_ch == x' followed by `curr_ch++' tests and skips the same byte)
+    from .r14 import path_exists
+    cur_loads = [i for i in f.all_insts() if is_cursor_load(i)]
+    cur_stores = [i for i in f.all_insts() if i.op == "store" and resolve_addr(f, i.ops[1]).root == ("g", CUR) and not resolve_addr(f, i.ops[1]).steps]
+    canon = {}
+    for l2 in cur_loads:
+        best = None
+        for l1 in cur_loads:
+            if l1 is l2 or not f.inst_dominates(l1, l2) or l1.id in canon:
+                continue
+            if any(path_exists(f, l1, s_, []) and path_exists(f, s_, l2, [l1]) for s_ in cur_stores):
+                continue
+            if best is None or f.inst_dominates(l1, best):
+                best = l1
+        if best is not None:
+            canon[l2.id] = canon.get(best.id, best.id)
+
+    def cn(x):
+        return canon.get(x, x)
     # byte symbols: value of `load i8 P' (P = a load of curr_ch) is named by P's SSA id
     byte_of = {}
     for i in f.all_insts():
         if i.op == "load" and i.ty == "i8":
             pi = f.inst(strip_casts(f, i.ops[0]))
             if is_cursor_load(pi):
-                byte_of[i.id] = pi.id
+                byte_of[i.id] = cn(pi.id)
     changed = True
     while changed:
         changed = False
@@ -231,7 +251,9 @@ def rule_R4b(ctx, rep, config="c-lib"):
             cur = s
             for i in b.insts:
                 if i.op == "load":
-                    if is_cursor_load(i):
+                    if is_cursor_load(i) and i.id in canon:
+                        snap[i.id] = cur      # same position as an earlier load: no new byte
+                    elif is_cursor_load(i):
                         if i.id in cur.nz or i.id in cur.z or cur.pend == i.id:
                             # the same static read in a new iteration denotes a new byte
                             if cur.pend == i.id:
@@ -264,6 +286,8 @@ def rule_R4b(ctx, rep, config="c-lib"):
                         if delta == 1:
                             if a < 0:
                                 cur = LexState(a + 1, None, st.nz, st.z)
+                            elif a == 0 and src.id in canon:
+                                cur = LexState(1, cn(src.id), st.nz, st.z)      # what is known about the byte peeked at stays
                             elif a == 0:
                                 cur = LexState(1, src.id, st.nz - {src.id}, st.z - {src.id})
                             else:
